@@ -123,6 +123,29 @@ Theorem C13_cursor_change_wakes_output_refuted :
   rq_req s = true /\ rq_cur s = true /\ rq_sent s = false /\ forall t, enabled rq_st (rq_step false 2) t s = false.
 Proof. exact cursor_change_does_not_wake. Qed.
 
+(* --- rfbShutdownServer joins a client thread: with the repaired order (thread id read and rfbCloseClient
+   called while the iterator's reference is held, iterator advanced afterwards) the application never
+   touches a freed client record, whenever the peer disconnects, and never gets stuck *)
+Theorem C13_shutdown_join_safe : forall sched,
+  sj_uaf (run sj_st (sj_step true) sched sj_init) = false.
+Proof. exact shutdown_join_safe_repaired. Qed.
+
+Theorem C13_shutdown_join_never_stuck : forall sched,
+  let s := run sj_st (sj_step true) sched sj_init in
+  sj_final s = true \/ exists t, t < 2 /\ enabled sj_st (sj_step true) t s = true.
+Proof. exact shutdown_join_never_stuck_repaired. Qed.
+
+Example C13_shutdown_join_nonvacuous :
+  let s := run sj_st (sj_step true) [0; 0; 0; 1; 1; 0] sj_init in sj_final s = true /\ sj_freed s = true /\ sj_uaf s = false.
+Proof. exact shutdown_join_nonvacuous. Qed.
+
+(* REFUTED for the faithful protocol (HEAD, main.c rfbShutdownServer): the iterator is advanced first,
+   which drops the only reference; the notified client thread frees the record; the application then
+   reads currentCl->screen->backgroundLoop and currentCl->client_thread *)
+Theorem C13_shutdown_join_safe_before_fix_refuted :
+  let s := run sj_st (sj_step false) sj_witness sj_init in sj_freed s = true /\ sj_uaf s = true.
+Proof. exact shutdown_join_reads_freed_record. Qed.
+
 (* --- marks that arrive while an update is being sent survive: the send step does not touch
    modifiedRegion after the region to send was computed *)
 Theorem C13_send_keeps_concurrent_marks : forall sched,
